@@ -165,9 +165,7 @@ def explore(chk: Check, owner: str, cross=False):
     rnd = random.Random(chk.seed)
     paths = g.tree_paths()
     budget = int(os.environ.get("VERIF_UNI_BUDGET") or ((600 if quick else 5000) if cross else (1400 if quick else 12000)))
-    chk.exhaustive = len(paths) <= budget
-    if len(paths) > budget:
-        paths = rnd.sample(paths, budget)
+    paths, chk.exhaustive = tlc.choose_paths(g, paths, budget, rnd)     # tree paths + non-tree edges, stratified (harness/tlc.py)
     # every fifth behaviour is supplied as 5 one-minute rows per bar and run on a resampled (5 min) grid
     # ... and every third one in an account quoted in USD while the pool quotes in USDC at 0.95 USD (market quote != account quote)
     AF = Fraction(19, 20)
